@@ -148,7 +148,8 @@ class FrameCollector:
         if collect_vars and not self.__time_exceeded():
             processor = VariableSetProcessor(var_lookup, var_cache, self.__source.collection_config)
             # we process the vars as a single dict of 'locals'
-            variable, log_str = processor.process_variable("locals", f_locals)
+            # (a copy, so a local that holds locals() is a variable of its own and not this wrapper)
+            variable, log_str = processor.process_variable("locals", dict(f_locals))
             # now ee 'unwrap' the locals, so they are on the frame directly.
             if variable.vid in var_lookup:
                 variable_val = var_lookup[variable.vid]
